@@ -51,7 +51,13 @@ PConstOf(a) == PCoef(a, 1)
 \* exact division by a non-zero integer constant (the only division the ring has)
 PDivConst(a, c) == {<<t[1], t[2] \div c>> : t \in a}
 PDivisible(a, c) == c # 0 /\ \A t \in a : t[2] % (IF c < 0 THEN 0 - c ELSE c) = 0
-\* substitution of ring elements for variables: val[k] for the k-th prime (a function on a set of primes);
-\* used to specialise an identity (e.g. s^2 -> 1 - c^2 is done by the laws themselves, not here)
-PDegreeBound(a, p) == \A t \in a : t[1] % (p * p * p * p * p) # 0
+\* Rewriting modulo a relation v^2 = rhs (pv the prime of variable v, rhs a polynomial free of v): every v^2 is
+\* replaced until v occurs at most linearly.  Two polynomials with equal reductions are equal in the quotient ring
+\* Z[..]/(v^2 - rhs) - used for c^2 + s^2 = 1 (all angles) and x^2 + y^2 + z^2 = 1 (all unit axes).
+RECURSIVE PReduce(_, _, _)
+PReduce(a, pv, rhs) ==
+    LET hi == {t \in a : t[1] % (pv * pv) = 0}
+    IN IF hi = {} THEN a
+       ELSE LET t == CHOOSE u \in hi : TRUE
+            IN PReduce(PAdd(a \ {t}, PMul({<<t[1] \div (pv * pv), t[2]>>}, rhs)), pv, rhs)
 =============================================================================
